@@ -192,6 +192,9 @@ func Generate(r *rand.Rand, profile string, concurrent bool, avoid map[string]bo
 			o.K = OpRPC
 			o.A = r.IntN(6) // context name: 0 none, 1..3 names, 4 unknown, 5 the empty name
 			o.B = r.IntN(2) // unary / stream
+			if !concurrent && r.IntN(8) == 0 {
+				o.B = 2 // unary, and it stays in flight until the end of the run
+			}
 		case x < 93:
 			o.K = OpAdvance
 			o.A = []int{1, 10, 30, 100}[r.IntN(4)]
@@ -295,7 +298,20 @@ func (p *fakePool) record(ctx context.Context) {
 //go:norace
 func (p *fakePool) Invoke(ctx context.Context, method string, args, reply interface{}, opts ...grpc.CallOption) error {
 	p.record(ctx)
+	if h, ok := ctx.Value(holdKey{}).(*heldCall); ok {
+		// a call that stays in flight inside the pool until the harness lets it return
+		h.pool = p
+		p.s.k.Wait(&h.w)
+	}
 	return nil
+}
+
+type holdKey struct{}
+
+type heldCall struct {
+	w    kern.Waiter
+	pool *fakePool
+	c    *callRec
 }
 
 type fakeStream struct {
@@ -431,6 +447,7 @@ type sim struct {
 	lastOpts           *grpcgcp.GCPMultiEndpointOptions
 	own                *grpcgcp.GCPMultiEndpointOptions // plan.Alias: the application's one options object
 	master, masterWant []string
+	holds              []*heldCall
 	userOpts           []grpc.DialOption
 	twinCfg            *pb.ApiConfig
 	cfgBad             string // first pool dialled with a configuration that is not the instance's
@@ -1142,6 +1159,49 @@ func (s *sim) twinProbes(when string) {
 	}
 }
 
+// holdRPC issues a unary call that reaches its pool and stays in flight there
+// (a long-running call): updates, outages and Close() happen around it.
+//
+//go:norace
+func (s *sim) holdRPC(name string) {
+	h := &heldCall{}
+	h.w.Note = "held call in flight"
+	ctx := context.WithValue(s.ctxFor(name), holdKey{}, h)
+	n0 := len(s.rpcs)
+	h.c = s.call("rpc-held", 0, func() { _ = s.gme.Invoke(ctx, "/svc/M", nil, nil) })
+	s.k.Quiesce()
+	s.kernelFailure()
+	if s.stop {
+		return
+	}
+	if h.c.panicked != "" {
+		fn := simkit.FuncOfStack(h.c.stack)
+		s.vio("C16", "rpc-panic", fn, fmt.Sprintf("RPC with MultiEndpoint name %q panicked in %s: %s", name, fn, h.c.panicked))
+		return
+	}
+	if len(s.rpcs) != n0+1 || h.pool == nil {
+		return // did not reach a pool (judged by the ordinary calls)
+	}
+	s.holds = append(s.holds, h)
+	s.res.Count("fault:call_in_flight_across_updates_and_close", 1)
+	r := s.rpcs[n0]
+	if !r.wasClosed {
+		s.judge(name, r.pool, "at quiescence (call that stays in flight)", true)
+	}
+}
+
+// releaseHolds lets every held call return.
+//
+//go:norace
+func (s *sim) releaseHolds() {
+	for _, h := range s.holds {
+		s.k.Set(&h.w)
+	}
+	s.holds = nil
+	s.k.Quiesce()
+	s.kernelFailure()
+}
+
 //go:norace
 func (s *sim) probe(name string, stream bool) (*fakePool, bool) {
 	ctx := s.ctxFor(name)
@@ -1283,6 +1343,7 @@ func (s *sim) afterUpdate(when string) {
 	for e, n := range open {
 		if !want[e] && n > 0 {
 			s.vio("C15", "pool-set-mismatch", "obsolete-open", fmt.Sprintf("%s: pool of %s is still open although no MultiEndpoint mentions it", when, e))
+			s.stop = false // the run goes on: whether Close() still releases that pool is C16's question
 			return
 		}
 	}
@@ -1548,6 +1609,10 @@ func (s *sim) exec(o Op) {
 			}
 			return
 		}
+		if o.B == 2 && len(s.holds) < 3 {
+			s.holdRPC(name)
+			return
+		}
 		if p, ok := s.probe(name, o.B == 1); ok {
 			s.judge(name, p, "at quiescence", true)
 		}
@@ -1754,7 +1819,8 @@ func (s *sim) heal() {
 	}
 	_ = err
 	s.closedAll = true
-	s.leakCheck("after-close")
+	s.leakCheck("after-close") // judged with the held calls still in flight
+	s.releaseHolds()
 }
 
 //go:norace
